@@ -326,21 +326,32 @@ func (c *ctx) checkValidated(fc *fileCtx, fd *ast.FuncDecl, call *ast.CallExpr, 
 		c.s.OK("G6", key+"#validated", c.pos(call), "dominated by parser.ParseFile == nil and format.Node == nil")
 		return
 	}
-	// helper: all call sites of fd
-	fnObj := fc.pkg.TypesInfo.Defs[fd.Name]
-	sites, good := 0, true
-	c.eachCall(func(fc2 *fileCtx, call2 *ast.CallExpr, fn *types.Func) {
-		if fn == nil || types.Object(fn) != fnObj {
-			return
+	// helper (of a helper ...): every chain of call sites leading here passes both tests
+	var validated func(fd *ast.FuncDecl, fcx *fileCtx, needP, needF bool, depth int) (bool, int)
+	validated = func(fd *ast.FuncDecl, fcx *fileCtx, needP, needF bool, depth int) (bool, int) {
+		if depth > 4 || fd == nil {
+			return false, 0
 		}
-		sites++
-		p2, f2 := has(fc2, fc2.par.Known(call2, fc2.funcDecl(call2)))
-		if !(p2 && f2) {
-			good = false
-		}
-	})
-	if sites > 0 && good {
-		c.s.OK("G6", key+"#validated", c.pos(call), fmt.Sprintf("helper: all %d call site(s) are dominated by parser.ParseFile == nil and format.Node == nil", sites))
+		fnObj := fcx.pkg.TypesInfo.Defs[fd.Name]
+		sites, good := 0, true
+		c.eachCall(func(fc2 *fileCtx, call2 *ast.CallExpr, fn *types.Func) {
+			if fn == nil || types.Object(fn) != fnObj {
+				return
+			}
+			sites++
+			fd2 := fc2.funcDecl(call2)
+			p2, f2 := has(fc2, fc2.par.Known(call2, fd2))
+			np, nf := needP && !p2, needF && !f2
+			if np || nf {
+				if ok, _ := validated(fd2, fc2, np, nf, depth+1); !ok {
+					good = false
+				}
+			}
+		})
+		return sites > 0 && good, sites
+	}
+	if ok, sites := validated(fd, fc, !p, !f, 0); ok {
+		c.s.OK("G6", key+"#validated", c.pos(call), fmt.Sprintf("helper: every chain of call sites (%d direct) is dominated by parser.ParseFile == nil and format.Node == nil", sites))
 		return
 	}
 	c.s.Bad("G6", key+"#validated", c.pos(call), "an output file is written before the generated text was re-parsed and formatted successfully: a template bug would leave a broken file on disk while cff may report success")
